@@ -733,7 +733,10 @@ fn sweep_rule_only(ctx: &Ctx, tabs: &Tables, years: i64, include_noninterleaving
             let mut tl = Tally::default();
             let r = guard(|| {
                 let mut tl = Tally::default();
-                for (k, &(st, et, o)) in combos.iter().enumerate() {
+                // all zones of this day pair first; then year by year, zone by zone: consecutive searches on this thread then
+                // hit different rules with the same rule days in the same year (a cache keyed by year + days would collide)
+                let mut zs: Vec<(RuleSpec, Arc<Timeline>, MZone, ImplZone)> = vec![];
+                for &(st, et, o) in combos.iter() {
                     let r = spec(days[i], days[j], st, et, o);
                     let (ms, md) = (crate::rule::std_type(&r), crate::rule::dst_type(&r));
                     if alt(&r, &ms, &md).is_err() {
@@ -751,18 +754,22 @@ fn sweep_rule_only(ctx: &Ctx, tabs: &Tables, years: i64, include_noninterleaving
                     }
                     let z = rule_zone(&r, line.clone());
                     let iz = ImplZone::from_model(&z).unwrap();
-                    let zr = iz.zref().unwrap();
+                    zs.push((r, line, z, iz));
                     tl.zones += 1;
-                    let y0 = 2001 + ((i * 7 + j * 3 + k) as i64 % 13) * 28;
-                    let mut ls = vec![];
-                    for y in y0..y0 + years {
-                        rule_readings(&line, &r, tabs, y, &mut ls);
-                    }
-                    ls.sort();
-                    ls.dedup();
-                    for l in ls {
-                        if let Some(f) = Fields::of_local(ctx.cyc, l, 0) {
-                            check_search(ctx, &z, zr, &f, name, &mut tl);
+                }
+                let y0 = 2001 + ((i * 7 + j * 3) as i64 % 13) * 28;
+                let mut ls = vec![];
+                for y in y0..y0 + years {
+                    for (r, line, z, iz) in &zs {
+                        let zr = iz.zref().unwrap();
+                        ls.clear();
+                        rule_readings(line, r, tabs, y, &mut ls);
+                        ls.sort();
+                        ls.dedup();
+                        for &l in &ls {
+                            if let Some(f) = Fields::of_local(ctx.cyc, l, 0) {
+                                check_search(ctx, z, zr, &f, name, &mut tl);
+                            }
                         }
                     }
                 }
@@ -809,7 +816,7 @@ fn sweep_junction(ctx: &Ctx, tabs: &Tables, thorough: bool) -> Tally {
                     if !matches!(class, Class::StartFirst | Class::EndFirst) {
                         continue;
                     }
-                    let y = 2003 + ((i + 5 * j + k) as i64 % 40);
+                    let y = 2003 + ((i + 5 * j) as i64 % 40);
                     let base = rule_zone(&r, line.clone());
                     for x in [line.sy(y), line.ey(y)] {
                         for &dl in &deltas {
@@ -955,7 +962,7 @@ pub fn run(args: &Args) -> i32 {
     let tabs = Tables::build(&cyc);
     let thorough = args.thorough();
     let ctx = Ctx { cyc: &cyc, rec: &rec, prop, kf1_open: rec.kf_open("KF1"), kf2_open: rec.kf_open("KF2"), kf3_open: rec.kf_open("KF3") };
-    let mut total = run_sweeps(&ctx, &tabs, thorough, prop == Prop::C14);
+    let mut total = run_sweeps(&ctx, &tabs, thorough, prop == Prop::C14 || args.digest_mode);
 
     kf2_witness(&ctx);
 
